@@ -143,5 +143,20 @@ impl ArcRtt {
     }
 }
 
+#[cfg(gmquic_verif)]
+impl ArcRtt {
+    /// Verification hook (read-only): (latest, smoothed, variance, minimum, time of first sample).
+    pub fn verif_state(&self) -> (Duration, Duration, Duration, Duration, Option<Instant>) {
+        let rtt = self.0.lock().unwrap();
+        (
+            rtt.latest_rtt,
+            rtt.smoothed_rtt,
+            rtt.rttvar,
+            rtt.min_rtt,
+            rtt.first_rtt_sample,
+        )
+    }
+}
+
 #[cfg(test)]
 mod tests {}
